@@ -93,7 +93,7 @@ def generate(rng, tier, shard, nshards):
                                  {'fillstyle': 'left', 'markerfacecolor': 'yellow', 'markeredgecolor': 'cyan'}, {'fillstyle': 'full', 'mfc': 'yellow'},
                                  {'markerfacecolor': 'yellow'}, {'fillstyle': 'full', 'mfc': 'yellow', 'mec': 'cyan'}, {'fillstyle': 'full'}])
             else:
-                kw = rng.choice([{'linewidth': None}, {'linestyle': None}, {'edgecolor': None}, {'edgecolor': 'green'}, {'ec': 'green'}, {'fill': True, 'facecolor': 'green'}, {'edgecolor': 'cyan'}, {'linewidth': 7.5}, {'fill': True, 'facecolor': 'yellow'}, {'alpha': 0.25}, {'linestyle': '-.'},
+                kw = rng.choice([{'transform': 'transData'}, {'transform': 'transData', 'linewidth': 2.5}, {'linewidth': None}, {'linestyle': None}, {'edgecolor': None}, {'edgecolor': 'green'}, {'ec': 'green'}, {'fill': True, 'facecolor': 'green'}, {'edgecolor': 'cyan'}, {'linewidth': 7.5}, {'fill': True, 'facecolor': 'yellow'}, {'alpha': 0.25}, {'linestyle': '-.'},
                                  {'ec': 'cyan'}, {'lw': 6.5}, {'ls': '-.'}, {'fill': True, 'fc': 'yellow'}])
         yield {'lane': cls, 'region': reg, 'origin': rng.choice([[0, 0], [0, 0], [rng.uniform(-50, 50), rng.uniform(-50, 50)], [10, -3], [0.5, 0.5], [-0.25, 7.75], [100, 64], [7, 3], [100, 64]]), 'kw': kw,
                'rs': rng.randrange(2 ** 31)}
@@ -218,6 +218,17 @@ def run_case(case, obs):
             origin = np.array([ix, iy], dtype=float)
         if okind in (1, 2, 3, 4, 5):
             obs.count('origin-kind:' + type(origin).__name__ + ':' + str(getattr(origin, 'dtype', type(origin[0]).__name__)))
+    if kw.get('transform') == 'transData':
+        kw['transform'] = _axes().transData            # what an artist added to an Axes has anyway: the patch path stays in data coordinates
+        obs.count('transform-keyword')
+    if hasattr(reg, 'angle') and case['rs'] % 6 == 2:
+        # the rotation angle held by the other angle classes astropy offers (a Latitude when it is within +-90 deg, a Longitude otherwise)
+        import astropy.units as u
+        from astropy.coordinates import Latitude, Longitude
+        deg = float(reg.angle.to_value(u.deg))
+        reg.angle = Latitude(reg.angle) if abs(deg) <= 90 else Longitude(deg % 360, u.deg)
+        obs.count('angle-as-' + type(reg.angle).__name__)
+        fp0 = S.fingerprint(reg)
     model = reg
     if cls == 'RegularPolygonPixelRegion' and case['rs'] % 4 == 0:
         # a regular polygon whose parameters were reassigned after construction still *is* (contains, box, mask) the polygon of
